@@ -375,9 +375,17 @@ Proof.
   intros HI. destruct (Inv_scan _ _ _ _ HI) as (Hsc & _). unfold reset_rtg.
   destruct (Bool.bool_dec (gmerged g) true) as [Emg | Emg].
   - rewrite Emg. split; assumption.
-  - apply not_true_is_false in Emg. rewrite Emg. simp_st. split; [assumption|].
+  - apply not_true_is_false in Emg. rewrite Emg. unfold set_rtg_now. simp_st. split; [assumption|].
     destruct HI as (R & gi & r & H1 & H2 & H3 & H4 & H5 & H6 & H7 & H8 & H9 & H10 & H11 & H12).
     exists R, gi, r. simp_st. splits; auto; try lia.
+Qed.
+
+(* rows_to_go := output_height - output_scanline, for any upsampler *)
+Lemma set_rtg_ok s p e st : Inv s p e st -> scan (set_rtg_now g st) = s /\ Inv s p true (set_rtg_now g st).
+Proof.
+  intros HI. destruct (Inv_scan _ _ _ _ HI) as (Hsc & _). unfold set_rtg_now. simp_st. split; [assumption|].
+  destruct HI as (R & gi & r & H1 & H2 & H3 & H4 & H5 & H6 & H7 & H8 & H9 & H10 & H11 & H12).
+  exists R, gi, r. simp_st. splits; auto; try lia.
 Qed.
 
 Lemma reset_sep_ok s p e st :
@@ -385,7 +393,7 @@ Lemma reset_sep_ok s p e st :
   Inv s p true (mkS (scan st) (bfull st) (rgctr st) (imcu st) (bufrow st) (nro st) (gH g - scan st) (cbuf st)
                     (sfull st) (spare st)).
 Proof.
-  intros Emg HI. pose proof (reset_rtg_ok s p e st HI) as (_ & B). unfold reset_rtg in B. rewrite Emg in B. exact B.
+  intros Emg HI. pose proof (reset_rtg_ok s p e st HI) as (_ & B). unfold reset_rtg, set_rtg_now in B. rewrite Emg in B. exact B.
 Qed.
 
 (* the "rowgroup_ctr += q" part of increment_simple_rowgroup_ctr *)
@@ -417,36 +425,124 @@ Lemma nat_eqb_z m : 0 <= m -> Nat.eqb (Z.to_nat m) 0 = (m =? 0).
 Proof. intros. destruct (Z.eq_dec m 0) as [-> | Hne]; [reflexivity|].
   assert (E : (m =? 0) = false) by lia. rewrite E. apply Nat.eqb_neq. lia. Qed.
 
+Lemma mod_add_small s p L : 0 < L -> 0 <= p -> s mod L + p < L -> (s + p) mod L = s mod L + p.
+Proof.
+  intros HL Hp Hlt. pose proof (Z.mod_pos_bound s L HL). pose proof (Z.div_mod s L ltac:(lia)).
+  symmetry. apply (Z.mod_unique_pos (s + p) L (s / L) (s mod L + p)); lia.
+Qed.
+
+(* increment_simple_rowgroup_ctr after the optional pre-read: counter bump, optional rows_to_go reset, remainder read *)
+Lemma increment_core s pend exact st rows :
+  Inv s pend exact st -> merged2v g = false -> 0 <= rows ->
+  (s mod gv g = 0 \/ rows < gv g) -> s mod gL g + rows < gL g -> s + rows < gH g ->
+  let st1 := mkS (scan st + (rows - rows mod gv g)) (bfull st) (rgctr st + rows / gv g) (imcu st) (bufrow st)
+                 (nro st) (rtg st) (cbuf st) (sfull st) (spare st) in
+  let st1' := if gfx4 g && negb (gmerged g) then set_rtg_now g st1 else st1 in
+  let st2 := read_and_discard_s g (Z.to_nat (rows mod gv g)) st1' in
+  scan st2 = s + rows /\
+  Inv (s + rows) ((pend || (negb (bfull st) && (0 <? rows / gv g))) && (rows mod gv g =? 0))
+      (if gfx4 g && negb (gmerged g) then true else exact && (rows / gv g =? 0)) st2.
+Proof.
+  intros HI Em2 Hrows Hal Hin HltH. cbv zeta.
+  set (q := rows / gv g). set (m := rows mod gv g).
+  assert (Hqm : rows = gv g * q + m /\ 0 <= m < gv g /\ 0 <= q).
+  { unfold q, m. pose proof (Z.div_mod rows (gv g)). pose proof (Z.mod_pos_bound rows (gv g)).
+    assert (0 <= rows / gv g) by (apply Z.div_pos; lia). lia. }
+  destruct Hqm as (Hqm & Hm & Hq).
+  replace (rows - m) with (gv g * q) by lia.
+  assert (Hal' : s mod gv g = 0 \/ q = 0).
+  { destruct Hal as [A | A]; [left; assumption|]. right. unfold q. apply Z.div_small. lia. }
+  pose proof (bump_ok s pend exact st q HI Em2 Hq Hal' ltac:(nia) ltac:(nia)) as HB.
+  destruct (gfx4 g && negb (gmerged g)) eqn:E4.
+  - destruct (set_rtg_ok _ _ _ _ HB) as (_ & HB').
+    destruct (rad_ok (Z.to_nat m) (s + gv g * q) _ _ _ HB' ltac:(lia)) as (A & B).
+    rewrite Z2Nat.id in A, B by lia. rewrite nat_eqb_z in B by lia.
+    replace (s + gv g * q + m) with (s + rows) in A, B by lia.
+    split; [assumption|]. apply B. lia.
+  - destruct (rad_ok (Z.to_nat m) (s + gv g * q) _ _ _ HB ltac:(lia)) as (A & B).
+    rewrite Z2Nat.id in A, B by lia. rewrite nat_eqb_z in B by lia.
+    replace (s + gv g * q + m) with (s + rows) in A, B by lia.
+    split; [assumption|]. apply B. lia.
+Qed.
+
+(* rows of the current row group that increment_simple_rowgroup_ctr reads first (repair of hazard 2) *)
+Definition pre_rows (r rows : Z) : Z :=
+  if gfx2 g && negb (gmerged g) && negb (r =? 0) then Z.min (gv g - r) rows else 0.
+
 (* increment_simple_rowgroup_ctr inside an iMCU row *)
 Lemma increment_ok s pend exact st rows :
   Inv s pend exact st -> 0 <= rows ->
-  (merged2v g = false -> s mod gv g = 0 \/ rows < gv g) ->
+  (merged2v g = false -> s mod gv g = 0 \/ rows < gv g \/ gfx2 g && negb (gmerged g) = true) ->
   s mod gL g + rows < gL g -> s + rows < gH g ->
+  let p := pre_rows (s mod gv g) rows in
   scan (increment_s g st rows) = s + rows /\
   Inv (s + rows)
       (if merged2v g then pend && (rows =? 0)
-       else (pend || (negb (bfull st) && (0 <? rows / gv g))) && (rows mod gv g =? 0))
-      (if merged2v g then exact else exact && (rows / gv g =? 0))
+       else (pend || (negb (bfull st) && (0 <? (rows - p) / gv g))) && (p =? 0) && ((rows - p) mod gv g =? 0))
+      (if merged2v g then exact
+       else if gfx4 g && negb (gmerged g) then true else exact && ((rows - p) / gv g =? 0))
       (increment_s g st rows).
 Proof.
-  intros HI Hrows Hal Hin HltH. unfold increment_s. fold (merged2v g).
+  intros HI Hrows Hal Hin HltH. cbv zeta. unfold increment_s. fold (merged2v g).
   destruct (merged2v g) eqn:Em2.
   - destruct (rad_ok (Z.to_nat rows) s pend exact st HI ltac:(lia)) as (A & B).
     rewrite Z2Nat.id in A, B by lia. rewrite nat_eqb_z in B by lia. split; [assumption|]. apply B. lia.
   - specialize (Hal eq_refl).
-    set (q := rows / gv g). set (m := rows mod gv g).
-    assert (Hqm : rows = gv g * q + m /\ 0 <= m < gv g /\ 0 <= q).
-    { unfold q, m. pose proof (Z.div_mod rows (gv g)). pose proof (Z.mod_pos_bound rows (gv g)).
-      assert (0 <= rows / gv g) by (apply Z.div_pos; lia). lia. }
-    destruct Hqm as (Hqm & Hm & Hq).
-    replace (rows - m) with (gv g * q) by lia.
-    assert (Hal' : s mod gv g = 0 \/ q = 0).
-    { destruct Hal as [A | A]; [left; assumption|]. right. unfold q. apply Z.div_small. lia. }
-    pose proof (bump_ok s pend exact st q HI Em2 Hq Hal' ltac:(nia) ltac:(nia)) as HB.
-    destruct (rad_ok (Z.to_nat m) (s + gv g * q) _ _ _ HB ltac:(lia)) as (A & B).
-    rewrite Z2Nat.id in A, B by lia. rewrite nat_eqb_z in B by lia.
-    replace (s + gv g * q + m) with (s + rows) in A, B by lia.
-    split; [assumption|]. apply B. lia.
+    pose proof HI as HI0.
+    destruct HI0 as (R & gi & r & Hs & HR & Hgi & Hr & HsH & Hscan & Hrg & Hbt & Hbf & Hrtg & Hsep & Hm2).
+    assert (HL : gL g = gM g * gv g) by reflexivity. assert (HLpos : 0 < gL g) by nia.
+    assert (Hmodv : s mod gv g = r).
+    { symmetry. apply (Z.mod_unique_pos s (gv g) (R * gM g + gi) r); lia. }
+    rewrite Hmodv in *. unfold pre_rows.
+    destruct (gfx2 g && negb (gmerged g)) eqn:E2.
+    + (* the repair of hazard 2 is present and the upsampler is the separate one *)
+      assert (Emg : gmerged g = false) by (destruct (gmerged g); [rewrite andb_false_r in E2; discriminate | reflexivity]).
+      destruct (Hsep Emg) as (Hnro & _).
+      destruct (r =? 0) eqn:Er.
+      * (* on a row group boundary: nothing to read first *)
+        assert (r = 0) by lia. subst r. rewrite Hnro. cbn [Z.eqb negb andb].
+        assert (E : (gv g <? gv g) = false) by lia. rewrite E. cbn [read_and_discard_s Z.to_nat].
+        change (Z.to_nat 0) with 0%nat. cbn [read_and_discard_s]. rewrite !Z.sub_0_r.
+        rewrite Emg in *. cbn [negb andb] in *. rewrite andb_true_r.
+        apply (increment_core s pend exact st rows HI Em2 Hrows ltac:(left; assumption) Hin HltH).
+      * (* inside a row group: its remaining rows are read first *)
+        rewrite Hnro, Er. cbn [negb andb]. assert (E : (r <? gv g) = true) by lia. rewrite E.
+        set (p := Z.min (gv g - r) rows).
+        assert (Hp : 0 <= p <= rows /\ p <= gv g - r) by (unfold p; lia).
+        destruct (Z.eq_dec p 0) as [Hp0 | Hp0].
+        { (* rows = 0 *)
+          assert (rows = 0) by (unfold p in Hp0; lia). subst rows. rewrite Hp0.
+          change (Z.to_nat 0) with 0%nat. cbn [read_and_discard_s]. rewrite Z.sub_0_r.
+          rewrite Emg in *. cbn [negb andb] in *. cbn [Z.eqb]. rewrite andb_true_r.
+          apply (increment_core s pend exact st 0 HI Em2 ltac:(lia) ltac:(right; lia) Hin HltH). }
+        destruct (rad_ok (Z.to_nat p) s pend exact st HI ltac:(lia)) as (A0 & B0).
+        rewrite Z2Nat.id in A0, B0 by lia. rewrite nat_eqb_z in B0 by lia.
+        assert (E0 : (p =? 0) = false) by lia. rewrite E0 in *. rewrite andb_false_r in B0.
+        specialize (B0 ltac:(lia)).
+        set (st0 := read_and_discard_s g (Z.to_nat p) st) in *.
+        (* after the pre-read the buffer is full: the position is strictly inside the iMCU row *)
+        assert (Hbf0 : bfull st0 = true).
+        { destruct (bfull st0) eqn:Eb; [reflexivity|]. exfalso.
+          destruct B0 as (R' & gi' & r' & Hs' & HR' & Hgi' & Hr' & _ & _ & _ & _ & Hbf' & _).
+          destruct (Hbf' Eb) as (_ & Hr0 & Hg0 & _). specialize (Hg0 eq_refl).
+          destruct (decomp_mod (s + p) R' gi' r' Hs' HR' Hgi' Hr') as (HmL' & _).
+          rewrite (mod_add_small s p (gL g) HLpos ltac:(lia) ltac:(lia)) in HmL'.
+          pose proof (Z.mod_pos_bound s (gL g) HLpos). subst r' gi'. lia. }
+        assert (Hal0 : (s + p) mod gv g = 0 \/ rows - p < gv g).
+        { destruct (Z.eq_dec p (gv g - r)) as [Hpe | Hpe].
+          - left. rewrite Hs, Hpe. replace ((R * gM g + gi) * gv g + r + (gv g - r)) with ((R * gM g + gi + 1) * gv g) by lia.
+            apply Z.mod_mul. lia.
+          - right. unfold p in *. lia. }
+        assert (Hin0 : (s + p) mod gL g + (rows - p) < gL g).
+        { rewrite (mod_add_small s p (gL g) HLpos ltac:(lia) ltac:(lia)). lia. }
+        pose proof (increment_core (s + p) false exact st0 (rows - p) B0 Em2 ltac:(lia) Hal0 Hin0 ltac:(lia)) as HC.
+        cbv zeta in HC. rewrite Hbf0 in HC. cbn [negb andb orb] in HC.
+        replace (s + p + (rows - p)) with (s + rows) in HC by lia.
+        rewrite Emg in *. cbn [negb andb] in *. rewrite !andb_false_r. cbn [andb]. exact HC.
+    + (* no pre-read *)
+      cbn [andb]. change (Z.to_nat 0) with 0%nat. cbn [read_and_discard_s]. rewrite !Z.sub_0_r. cbn [Z.eqb]. rewrite andb_true_r.
+      apply (increment_core s pend exact st rows HI Em2 Hrows); auto.
+      destruct Hal as [A | [A | A]]; auto. discriminate.
 Qed.
 
 (* ---------- the abstract tracker and the state ---------- *)
@@ -786,7 +882,7 @@ Qed.
 Definition skip_read_equals_full_full : Prop :=
   forall g ops, geom_ok g -> Forall op_nonneg ops -> run_result_ok g ops.
 
-Definition wg (M v H : Z) (merged : bool) : geom := mkGeom M v H ((H + M * v - 1) / (M * v)) merged false 1 H H false 1 H.
+Definition wg (M v H : Z) (merged : bool) : geom := mkGeom M v H ((H + M * v - 1) / (M * v)) merged false 1 H H false 1 H false false false false.
 
 Definition bad_row (g : geom) (ops : list op) (y : Z) (p : prov) : Prop :=
   In (y, p) (delivered (snd (run_s g (s_init g) ops))) /\ p <> ideal_s y.
